@@ -15,11 +15,17 @@
 /* ---- (a) R11 stand-ins ---------------------------------------------------------------------------------- */
 #define VP_MAX(a, b) ((a) < (b) ? (b) : (a))   /* std::max: returns a unless a < b */
 #define VP_MIN(a, b) ((b) < (a) ? (b) : (a))   /* std::min: returns a unless b < a */
+#define VP_SWAP_U(a, b) do { unsigned int vp_t_ = (a); (a) = (b); (b) = vp_t_; } while (0)   /* std::swap */
 static inline unsigned int vp_gcd_u(unsigned int a, unsigned int b) /* std::gcd on unsigned int (Euclid) */
 {
   while (b != 0) { unsigned int t = a % b; a = b; b = t; }
   return a;
 }
+
+/* used only when a counterexample is re-derived in a form the real class accepts (its constructor refuses
+ * non-primes): `-DVP_REPLAYABLE` restricts the characteristic to this list of primes. Never active in a proof run. */
+#define VP_LISTED_PRIME(p) ((p) == 2 || (p) == 3 || (p) == 5 || (p) == 7 || (p) == 11 || (p) == 13 || (p) == 251 || \
+  (p) == 257 || (p) == 32749 || (p) == 46337 || (p) == 46349 || (p) == 65519 || (p) == 65521 || (p) == 131071)
 
 /* ---- (b) specification functions ------------------------------------------------------------------------- */
 typedef unsigned __int128 vp_u128;
